@@ -10,6 +10,9 @@ TRUST = ("Trusted: Go type checker and go/ssa (x/tools v0.29.0), CHA/VTA call gr
 
 # id -> (technique, level text, design ref)   -- only properties whose check exists are listed here
 CLAIMS = {
+    "C08": ("dominance and path analysis over go/ssa of the certificate checker: acceptance of a line dominated by the successful RUP test of the same value, deferred restoration and tag initialisation in the entry block, save/restore pairing of the unit bindings on every return path, tagging on every propagation/conflict path, sibling comparison of the two readers",
+            "Decides that a line is never accepted without its own RUP test, that what the check changes is restored on every exit, that every clause used is tagged, and that both entry points perform the same steps. Necessary conditions; that the propagation loop equals unit propagation is not decided.",
+            "DESIGN.md section 5, C08"),
     "C06": ("emission-pairing analysis over go/ssa: every append to the learned-clause store paired with a certificate write of the same clause, dominance of unit emission over top-level binding, path check that the empty clause precedes every Unsat conclusion, effect analysis of Certified-only regions, payload comparison of the stdout and channel forms",
             "Decides completeness and neutrality of certificate emission on every path (everything learned is written, the empty clause is written before Unsat is concluded, the flag cannot change solver state, both output forms agree). Necessary for a valid refutation; that each written clause is RUP is not decided.",
             "DESIGN.md section 5, C06"),
